@@ -110,6 +110,7 @@ class Explorer(object):
         self.pos = 0
         self.log = []
         self.stack = []
+        self.detail = None        # harness-provided description of the call in progress (for replays)
         self.t0 = None
         self.notes = []
 
@@ -327,6 +328,7 @@ class Explorer(object):
                 self.log = []
                 self.inputs = {}
                 self._fresh = 0
+                self.detail = None
                 self.solver.push()
                 try:
                     fn(self)
@@ -334,6 +336,21 @@ class Explorer(object):
                     self.paths_completed += 1
                 except PathAbort:
                     self.paths_aborted += 1
+                except Exception as e:
+                    # an exception escaping from the code under test that the harness did not
+                    # expect: a counterexample candidate (decided by the replay on the real code)
+                    import traceback
+                    self.paths += 1
+                    site = ''
+                    for fr in traceback.extract_tb(e.__traceback__):
+                        if '/pydl/' in fr.filename:
+                            site = '%s:%s' % (fr.filename.split('/pydl/', 1)[1], fr.name)
+                    if not site:
+                        raise
+                    self.requires += 1
+                    det = dict(self.detail) if isinstance(self.detail, dict) else {'detail': self.detail}
+                    det['exception'] = '%s: %s' % (type(e).__name__, str(e)[:200])
+                    self._violation('exception: %s in %s' % (type(e).__name__, site), self.model_inputs(), det)
                 except NonFinite as e:
                     self.paths += 1
                     self.paths_cut += 1
